@@ -49,6 +49,7 @@ type c49Input struct {
 	Kind string          `json:"kind"`
 	Lks  json.RawMessage `json:"lks"`
 	Cfg  json.RawMessage `json:"cfg"`
+	Li   []int           `json:"li"`
 }
 
 const c49LO = 16
@@ -170,7 +171,7 @@ func TestVerifC49(t *testing.T) {
 					t.Fatal(err)
 				}
 				res, err := decoder.Decode(xdsclient.NewAnyProto(lAny), xdsclient.DecodeOptions{})
-				ev := map[string]any{"ev": "cfg", "cfg": in.Cfg, "ok": err == nil, "res": []int{}}
+				ev := map[string]any{"ev": "cfg", "cfg": in.Cfg, "ok": err == nil, "li": in.Li, "res": []int{}}
 				if err != nil {
 					ev["err"] = err.Error()
 					tr.Emit(ev)
@@ -185,8 +186,9 @@ func TestVerifC49(t *testing.T) {
 				}
 				nAcc++
 				fcm := newFilterChainManager(&upd.TCPListener.FilterChains, &upd.TCPListener.DefaultFilterChain)
-				out := make([]int, 0, len(lks))
-				for _, lk := range lks {
+				out := make([]int, 0, len(in.Li))
+				for _, i := range in.Li {
+					lk := lks[i]
 					// as listenerWrapper.Accept does with the net.Conn's addresses
 					dst, _ := netip.AddrFromSlice(c49IP(lk.F, lk.Dst))
 					src, _ := netip.AddrFromSlice(c49IP(lk.F, lk.Src))
